@@ -88,7 +88,10 @@ class Span(NamedTuple):
         """
         lines = self.text.splitlines(keepends=True)
         start_line_number, _ = self.start_pos().line_col()
-        end_line_number, _ = self.end_pos().line_col()
+        end_line_number, end_column = self.end_pos().line_col()
+        if end_column == 1 and self.end > self.start:
+            # The span ends with a line break; it does not touch the next line.
+            end_line_number -= 1
         return lines[start_line_number - 1 : end_line_number]
 
 
